@@ -97,6 +97,10 @@ pub const POOL: &[(&str, &str, &str)] = &[
     ("R5", "/p/x/../op5.graphql", "#import Frag1 from \"./frag1.graphql\"\nquery R5 { five ...Frag1 }\n"),
     ("R6", "./rel6.graphql", "query R6 { six }\n"),
     ("R4", "/p/sub/deep/q.graphql", "#import Frag2 from \"../../d/frag2.graphql\"\nquery Q4 { ...Frag2 }\n"),
+    // sources that begin with a byte order mark (the grammar skips it; the buffer handed over is three bytes longer than
+    // what the parser keeps)
+    ("RB", "/p/bom.graphql", "\u{feff}#import Frag1 from \"./frag1.graphql\"\nquery Bom { bom ...Frag1 }\n"),
+    ("F2B", "/p/d/frag2.graphql", "\u{feff}fragment Frag2 on T { y }\n"),
     ("SELF", "/p/self.graphql", "#import * from \"./self.graphql\"\n#import Frag2 from \"./d/../d/frag2.graphql\"\nquery Self { ...SelfF ...Frag2 }\nfragment SelfF on T { s }\n"),
 ];
 
@@ -473,8 +477,8 @@ pub fn alphabet(with_missing: bool) -> Vec<Op> {
 fn random_history(rng: &mut Rng, len: usize, with_missing: bool) -> Vec<Op> {
     let mut ops = vec![];
     let mut n_issued = 0usize;
-    let roots: &[&'static str] = if with_missing { &["R1", "R2", "R3", "R4", "R5", "R6", "R7", "BAD", "SELF", "MISS"] } else { &["R1", "R2", "R3", "R4", "R5", "R6", "R7", "BAD", "SELF"] };
-    let files: &[&'static str] = &["F1", "F2", "F2I", "F4", "F1ALT", "BADF", "R3", "SELF", "G1", "G2", "GA", "GB"];
+    let roots: &[&'static str] = if with_missing { &["R1", "R2", "R3", "R4", "R5", "R6", "R7", "RB", "BAD", "SELF", "MISS"] } else { &["R1", "R2", "R3", "R4", "R5", "R6", "R7", "RB", "BAD", "SELF"] };
+    let files: &[&'static str] = &["F1", "F2", "F2I", "F2B", "F4", "F1ALT", "BADF", "R3", "SELF", "G1", "G2", "GA", "GB"];
     for _ in 0..len {
         let tref = |rng: &mut Rng, n: usize| -> TRef {
             if n == 0 || rng.chance(1, 8) {
@@ -640,6 +644,20 @@ pub fn run_mode(ctx: &Ctx, rep: &mut Report, mode: &str) {
                 run_one(&ops, rep, rep_n == 0);
                 rep.count("scripted_scenarios|two-directories-same-import-string");
             }
+        }
+    }
+    // sources that begin with a byte order mark, as root and as a supplied file, supplied again and freed (every engine:
+    // what the loader keeps of such a source is shorter than what it was handed)
+    {
+        let t0 = TRef::Issued(0);
+        let t1 = TRef::Issued(1);
+        for ops in [
+            vec![Op::Initiate("RB"), Op::Required(t0), Op::Load(t0, "F1"), Op::Load(t0, "F2B"), Op::Required(t0), Op::Emit(t0), Op::Free(t0)],
+            vec![Op::Initiate("R1"), Op::Load(t0, "F1"), Op::Load(t0, "F2B"), Op::Load(t0, "F2"), Op::Load(t0, "F2B"), Op::Emit(t0), Op::Initiate("RB"), Op::Free(t0), Op::Emit(t1), Op::Free(t1)],
+            vec![Op::Initiate("RB"), Op::Free(t0), Op::Initiate("RB"), Op::Load(t1, "F2B"), Op::Free(t1)],
+        ] {
+            run_one(&ops, rep, true);
+            rep.count("scripted_scenarios|byte-order-mark-sources");
         }
     }
     let (q, t) = match mode {
